@@ -293,6 +293,51 @@ fn exhaustive(ctx: &mut Ctx, shard: usize, nshards: usize) -> Verdict {
         }
         ctx.subspace("all 99 static entries: encode by name+value / name / near misses; decode in every spelling x redundancy 0..2", 99);
     }
+    // integers around the limits of the continuation bytes: 7..11 of them, the last one small, even, odd, large - in every
+    // place of a field line where an integer stands (an arithmetic that only looks at the shift amount drops the bits
+    // shifted out of the tenth byte)
+    if shard == 2 % nshards {
+        let mut n = 0u64;
+        for k in 7..=11usize {
+            for last in [0x00u8, 0x01, 0x02, 0x03, 0x10, 0x7e, 0x7f] {
+                for place in 0..5usize {
+                    let mut out = vec![0u8, 0];
+                    let tail: Vec<u8> = std::iter::repeat(0x80u8).take(k - 1).chain([last]).collect();
+                    match place {
+                        0 => {
+                            out.push(0xff);
+                            out.extend(&tail);
+                        }
+                        1 => {
+                            out.push(0x5f);
+                            out.extend(&tail);
+                            out.extend_from_slice(&[1, b'v']);
+                        }
+                        2 => {
+                            out.push(0x27);
+                            out.extend(&tail);
+                            out.extend_from_slice(b"name");
+                            out.extend_from_slice(&[1, b'v']);
+                        }
+                        3 => {
+                            out.extend_from_slice(&[0x21, b'n', 0x7f]);
+                            out.extend(&tail);
+                            out.extend_from_slice(b"value");
+                        }
+                        _ => {
+                            // the Delta Base of the prefix
+                            out = vec![0u8, 0x7f];
+                            out.extend(&tail);
+                            out.push(0xc0 | 17);
+                        }
+                    }
+                    check_decode(&out, Origin::Mutant, ctx)?;
+                    n += 1;
+                }
+            }
+        }
+        ctx.subspace("integers with 7..11 continuation bytes x 7 last bytes x 5 places (static index, name index, name length, value length, Delta Base)", n);
+    }
     Ok(())
 }
 
